@@ -350,4 +350,63 @@ theorem C20_transpose_avx (input : Array UInt8) (rows : Nat) (choose : Nat → N
     (hdiv : input.size % rows = 0) : transposeAvx input rows choose = transposeSpec input rows :=
   C20_transpose_avx_into input rows choose _ (by simp) h128 hr hdiv
 
+/-! ### 4. the executable form run by the driver is the model of the theorems -/
+
+theorem foldl_ext_mem {α β : Type} (l : List β) (f g : α → β → α) (a : α) (h : ∀ x ∈ l, ∀ acc, f acc x = g acc x) : l.foldl f a = l.foldl g a := by
+  induction l generalizing a with
+  | nil => rfl
+  | cons x xs ih => rw [List.foldl_cons, List.foldl_cons, h x List.mem_cons_self, ih _ (fun y hy => h y (List.mem_cons_of_mem _ hy))]
+
+theorem rowByteA_eq (a : Array Bool) (s : Regs Bool) (h : EqOn a s) (k b : Nat) (hk : k < 128) (hb : b < 16) : rowByteA a k b = rowByte s k b := by
+  unfold rowByteA rowByte
+  apply foldl_if_congr
+  intro t ht
+  have ht8 : t < 8 := List.mem_range.mp ht
+  exact h (k / 2) (by omega) (k % 2 * 128 + 8 * b + t) (by omega)
+
+theorem storeSquareA_eq (o : Array UInt8) (a : Array Bool) (s : Regs Bool) (h : EqOn a s) (outStride off nrows : Nat) (hn : nrows ≤ 128) :
+    storeSquareA o a outStride off nrows = storeSquare o s outStride off nrows := by
+  unfold storeSquareA storeSquare
+  apply foldl_ext_mem
+  intro k hk o'
+  have hk' : k < 128 := by have := List.mem_range.mp hk; omega
+  apply foldl_ext_mem
+  intro b hb o''
+  rw [rowByteA_eq a s h k b hk' (List.mem_range.mp hb)]
+
+theorem groupM_eq (input : Array UInt8) (inStride outStride i j g : Nat) (o : Array UInt8) :
+    groupM input inStride outStride i j g o = group input inStride outStride i j g o := by
+  unfold groupM group
+  apply foldl_ext_mem
+  intro block _ o'
+  exact storeSquareA_eq o' _ _ (transpose128A_eq _) _ _ 128 (Nat.le_refl _)
+
+theorem mainLoopM_eq (input : Array UInt8) (inStride outStride cMain i : Nat) (choose : Nat → Nat → Nat) (fuel j : Nat) (o : Array UInt8) :
+    mainLoopM input inStride outStride cMain i choose fuel j o = mainLoop input inStride outStride cMain i choose fuel j o := by
+  induction fuel generalizing j o with
+  | zero => rfl
+  | succ fuel ih => simp only [mainLoopM, mainLoop, groupM_eq, ih]
+
+theorem restColsM_eq (input : Array UInt8) (inStride outStride cRest i j : Nat) (o : Array UInt8) (h : cRest ≤ 128) :
+    restColsM input inStride outStride cRest i j o = restCols input inStride outStride cRest i j o := by
+  unfold restColsM restCols
+  exact storeSquareA_eq o _ _ (transpose128A_eq _) _ _ cRest h
+
+/-- the executable form is the model the theorems are about -/
+theorem transposeAvxM_eq (input : Array UInt8) (rows : Nat) (choose : Nat → Nat → Nat) :
+    transposeAvxM input rows choose = transposeAvx input rows choose := by
+  unfold transposeAvxM transposeAvx transposeIntoM transposeInto
+  simp only []
+  apply foldl_ext_mem
+  intro i _ o
+  rw [mainLoopM_eq]
+  split
+  · exact restColsM_eq _ _ _ _ _ _ _ (by have := Nat.mod_lt (input.size * 8 / rows) (by omega : 0 < 128); omega)
+  · rfl
+
+/-- hence what the driver computes is the exact transpose, too -/
+theorem C20_transpose_avx_executable (input : Array UInt8) (rows : Nat) (choose : Nat → Nat → Nat) (h128 : 128 ≤ rows) (hr : rows % 128 = 0)
+    (hdiv : input.size % rows = 0) : transposeAvxM input rows choose = transposeSpec input rows := by
+  rw [transposeAvxM_eq]; exact C20_transpose_avx input rows choose h128 hr hdiv
+
 end PolytuneModel.Avx.Outer
